@@ -203,6 +203,32 @@ impl<'a, P: ?Sized + PathImpl> PathMutImpl<'a, P> {
 	#[inline]
 	pub fn normalize(&mut self) {
 		let mut buffer: SmallVec<[u8; NORMALIZE_IN_PLACE_BUFFER_LEN]> = SmallVec::new();
+
+		// AMBIGUITY: The normalized path may start with an empty segment
+		//            (`a/..//b` would become the absolute path `/b`, `/a/..//b`
+		//            would become `//b`, an authority) or with a segment
+		//            containing a `:` that would be read as a scheme.
+		// SOLUTION:  We add the same `.` segment `push` uses in those cases.
+		let disambiguate = {
+			let mut segments = self.normalized_segments();
+			let count = segments.len();
+			match segments.next() {
+				Some(first) if first.is_empty() => {
+					self.is_relative() || !self.follows_authority || count == 1
+				}
+				Some(first) => {
+					self.start == 0
+						&& self.is_relative()
+						&& parse::first_segment_has_colon(first.as_bytes())
+				}
+				None => false,
+			}
+		};
+
+		if disambiguate {
+			buffer.extend_from_slice(b"./")
+		}
+
 		for (i, segment) in self.normalized_segments().enumerate() {
 			if i > 0 {
 				buffer.push(b'/')
